@@ -654,6 +654,32 @@ def full(shape, fill, dtype=None, **k):
     return _np.full(shape, fill, dtype=dtype)
 
 
+def _trunc(v):
+    """C cast of a real to an integer type: truncation towards zero (NumPy's unsafe casting)"""
+    import z3 as _z3
+
+    v = Sc.of(v)
+    if not v.isreal():
+        raise Unsupported("cast of a complex symbolic value to an integer dtype")
+    e = v.re
+    return Sc(_z3.If(e >= 0, _z3.ToReal(_z3.ToInt(e)), -_z3.ToReal(_z3.ToInt(-e))))
+
+
+def full_like(a, fill, dtype=None, **k):
+    """np.full_like borrows shape *and dtype* of `a`: the fill value is cast to it (unsafe casting)"""
+    dt = dtype if dtype is not None else (float if isinstance(a, SA) else _np.asarray(a).dtype)
+    shape = _np.shape(_d(a))
+    if has_sym(fill):
+        if _is_float_dtype(dt):
+            return full(shape, fill, float)
+        if _np.issubdtype(_np.dtype(dt), _np.integer):
+            return full(shape, _trunc(fill), float)
+        raise Unsupported(f"np.full_like with a symbolic fill value and dtype {dt}")
+    if isinstance(a, SA):
+        return full(shape, fill, float)
+    return _np.full_like(a, fill, dtype=dtype)
+
+
 def empty(shape, dtype=None, **k):
     """np.empty models uninitialised memory: every cell is a fresh unconstrained symbol."""
     if not _is_float_dtype(dtype):
@@ -1062,6 +1088,7 @@ SHIMS = dict(
     zeros=zeros,
     ones=ones,
     full=full,
+    full_like=full_like,
     empty=empty,
     zeros_like=zeros_like,
     ones_like=ones_like,
